@@ -702,73 +702,63 @@ def blockOrFresh (w : World) (nm : Name) : Nat × World :=
   | some b => (b, w)
   | none => w.defaultBlk nm
 
-def specRocks : World → List (Name × Nat) → R
-  | w, [] => .ok w
-  | w, (nm, tag) :: r =>
-    let (id, w1) := w.newRock { name := nm, tag := tag }
-    match addRocktype w1 id with
-    | .error e => .error e
-    | .ok w2 => specRocks w2 r
+/-- `grid.add_rocktype(rocktype(name = nm, density = tag))` -/
+def stepAddRocktype (w : World) (nm : Name) (tag : Nat) : Out :=
+  let (r, w1) := w.newRock { name := nm, tag := tag }
+  .ofR (addRocktype w1 r)
 
-def specBlocks : World → List (Name × Name × Rat × Option (List Rat)) → R
-  | w, [] => .ok w
-  | w, (nm, rock, vol, centre) :: r =>
-    match dget w.rocktype rock with
-    | none => .error (.keyError, w)
-    | some rt =>
-      let (id, w1) := w.newBlk { name := nm, volume := vol, rock := rt, centre := centre, conn := [] }
-      match addBlock w1 id with
-      | .error e => .error e
-      | .ok w2 => specBlocks w2 r
+/-- `grid.add_block(t2block(nm, vol, rt, centre))` -/
+def stepAddBlock (w : World) (nm rock : Name) (vol : Rat) (centre : Option (List Rat)) : Out :=
+  let (rt, w1) := match dget w.rocktype rock with
+    | some rt => (rt, w)
+    | none => w.newRock { name := rock, tag := 0 }
+  let (b, w2) := w1.newBlk { name := nm, volume := vol, rock := rt, centre := centre, conn := [] }
+  .ofR (addBlock w2 b)
 
-def specCons : World → List (Nat × Nat × ConPay) → R
-  | w, [] => .ok w
-  | w, (i, j, p) :: r =>
-    match w.blocklist[i]?, w.blocklist[j]? with
-    | some b0, some b1 =>
-      let (id, w1) := w.newCon (mkCon b0 b1 p)
-      match addConnection w1 id with
-      | .error e => .error e
-      | .ok w2 => specCons w2 r
-    | _, _ => .error (.indexError, w)
+/-- `grid.add_connection(t2connection([b0, b1], …))` -/
+def stepAddConnection (w : World) (n0 n1 : Name) (p : ConPay) : Out :=
+  let (b0, w1) := w.blockOrFresh n0
+  let (b1, w2) := w1.blockOrFresh n1
+  let (c, w3) := w2.newCon (mkCon b0 b1 p)
+  .ofR (addConnection w3 c)
 
-/-- builds the second grid with the public API in the shared heap; the current grid is left alone -/
-def buildSpec (w : World) (s : GridSpec) : Except (Exc × World) (World × Grid) :=
-  let g0 := w.grid
-  match specRocks (w.withGrid ⟨[], [], [], [], [], []⟩) s.rocks with
-  | .error (e, w1) => .error (e, w1.withGrid g0)
-  | .ok w1 =>
-    match specBlocks w1 s.blocks with
-    | .error (e, w2) => .error (e, w2.withGrid g0)
-    | .ok w2 =>
-      match specCons w2 s.cons with
-      | .error (e, w3) => .error (e, w3.withGrid g0)
-      | .ok w3 => .ok (w3.withGrid g0, w3.grid)
+/-- the three constructor-and-add calls a grid is built with -/
+def stepBasic (w : World) : Op → Out
+  | .addRocktype nm tag => stepAddRocktype w nm tag
+  | .addBlock nm rock vol centre => stepAddBlock w nm rock vol centre
+  | .addConnection n0 n1 p => stepAddConnection w n0 n1 p
+  | _ => { w := w }
+
+def runBasic : World → List Op → World
+  | w, [] => w
+  | w, op :: r => runBasic (stepBasic w op).w r
+
+/-- the calls that build the second grid from its recipe (connections between the blocks named
+    by `blocks[i]`, `blocks[j]`) -/
+def specOps (s : GridSpec) : List Op :=
+  s.rocks.map (fun r => Op.addRocktype r.1 r.2) ++
+  s.blocks.map (fun b => Op.addBlock b.1 b.2.1 b.2.2.1 b.2.2.2) ++
+  s.cons.map (fun c => Op.addConnection (s.blocks.getD c.1 default).1 (s.blocks.getD c.2.1 default).1 c.2.2)
+
+/-- builds the second grid with the public API from the empty grid, in the shared heap; the
+    current grid is left alone.  Returns the world (heap grown, current grid as before) and the new grid. -/
+def buildSpec (w : World) (s : GridSpec) : World × Grid :=
+  let w' := runBasic (w.withGrid ⟨[], [], [], [], [], []⟩) (specOps s)
+  (w'.withGrid w.grid, w'.grid)
 
 end World
 
 open World in
 def step (w : World) : Op → Out
-  | .addRocktype nm tag =>
-    let (r, w1) := w.newRock { name := nm, tag := tag }
-    .ofR (addRocktype w1 r)
+  | .addRocktype nm tag => stepAddRocktype w nm tag
   | .deleteRocktype nm => .ofR (deleteRocktype w nm)
   | .renameRocktype a b => .ofR (renameRocktype w a b)
   | .cleanRocktypes => .ofR (cleanRocktypes w)
   | .sortRocktypes => .ofR (sortRocktypes w)
-  | .addBlock nm rock vol centre =>
-    let (rt, w1) := match dget w.rocktype rock with
-      | some rt => (rt, w)
-      | none => w.newRock { name := rock, tag := 0 }
-    let (b, w2) := w1.newBlk { name := nm, volume := vol, rock := rt, centre := centre, conn := [] }
-    .ofR (addBlock w2 b)
+  | .addBlock nm rock vol centre => stepAddBlock w nm rock vol centre
   | .deleteBlock nm => .ofR (deleteBlock w nm)
   | .demoteBlock nms => .ofR (demoteBlock w nms)
-  | .addConnection n0 n1 p =>
-    let (b0, w1) := w.blockOrFresh n0
-    let (b1, w2) := w1.blockOrFresh n1
-    let (c, w3) := w2.newCon (mkCon b0 b1 p)
-    .ofR (addConnection w3 c)
+  | .addConnection n0 n1 p => stepAddConnection w n0 n1 p
   | .deleteConnection n0 n1 => .ofR (deleteConnection w (n0, n1))
   | .reorder bs cs => .ofR (reorder w bs cs)
   | .renameBlocks m fix => .ofR (renameBlocks w m fix)
@@ -777,17 +767,14 @@ def step (w : World) : Op → Out
     | .ok (w1, cols) => { w := w1, ret := cols }
     | .error (e, w1) => { w := w1, exc := some e }
   | .addGrid spec left =>
-    match buildSpec w spec with
-    | .error (e, w1) => { w := w1, exc := some e }
-    | .ok (w1, other) =>
-      -- `grid = grid + other`: when `__add__` raises, the assignment does not happen
-      match (if left then addGrids w1 w1.grid other else addGrids w1 other w1.grid) with
-      | .ok w2 => { w := w2 }
-      | .error (e, w2) => { w := w2.withGrid w1.grid, exc := some e }
+    let (w1, other) := buildSpec w spec
+    -- `grid = grid + other`: when `__add__` raises, the assignment does not happen
+    match (if left then addGrids w1 w1.grid other else addGrids w1 other w1.grid) with
+    | .ok w2 => { w := w2 }
+    | .error (e, w2) => { w := w2.withGrid w1.grid, exc := some e }
   | .embed spec host sub p =>
-    match buildSpec w spec with
-    | .error (e, w1) => { w := w1, exc := some e }
-    | .ok (w1, other) =>
+    let (w1, other) := buildSpec w spec
+    (
       let (hb, w2) := w1.blockOrFresh host
       let (sb, w3) := match dget other.block sub with
         | some b => (b, w2)
@@ -795,7 +782,7 @@ def step (w : World) : Op → Out
       let (c, w4) := w3.newCon (mkCon hb sb p)
       match embed w4 other c with
       | .ok (w5, fl) => { w := w5, flag := fl }
-      | .error (e, w5) => { w := w5.withGrid w4.grid, exc := some e }
+      | .error (e, w5) => { w := w5.withGrid w4.grid, exc := some e })
 
 /-- the state after a whole history (exceptions are swallowed by the caller, as a script with
     `try/except` around each call would) -/
